@@ -18,7 +18,7 @@ RULE = ("(face 0..11, polygon): triangles and star-shaped quadrilaterals/pentago
 ASSUMPTIONS = ["face-plane geometry (inradius (sqrt5-1)/2, seam rays every 36 degrees) is the published A5 face layout"]
 TOL = 1e-6
 FACTOR = (4 * math.pi / 12) / (5 * D_EDGE * D_EDGE * math.tan(math.radians(36)))
-REQUIRED_CLASSES = {"crosses_face_edge": (None, 0.1), "crosses_seam": (None, 0.15), "tiny": (None, 0.05)}
+REQUIRED_CLASSES = {"crosses_face_edge": ("generated", 0.1), "crosses_seam": ("generated", 0.15), "tiny": ("generated", 0.05)}
 
 
 def _shoelace(pts):
@@ -125,7 +125,7 @@ def judge(case, col):
     col.measure("area_factor_rel_err", abs(err), case)
     seam, edge, allmirror = classify(poly, k)
     size = math.sqrt(planar) / (2 * D_EDGE)
-    classes = ["polygon", "cls_" + case.get("cls", "replay"), f"n{len(poly)}"]
+    classes = ["polygon", "cls_" + case.get("cls", "replay"), f"n{len(poly)}"] + (["generated"] if case.get("cls") != "branch_boundary" else [])
     if seam:
         classes.append("crosses_seam")
     if edge:
@@ -193,8 +193,60 @@ def stage_hyp(ctx):
     hyp_drive(ctx, cases(), judge, 120 if ctx.tier == "quick" else 5000)
 
 
+def stage_boundary(ctx):
+    """Polygons with one vertex exactly on a discovered branch boundary of the projection code (lib/boundary.py)."""
+    from lib import boundary
+    from a5.core.coordinate_transforms import from_lonlat
+    from checks import c13
+    proj, axes = _projlib()
+    anc = boundary.anchors(ctx, "proj", 200 if ctx.tier == "quick" else 1200)
+    if not anc:
+        ctx.col.count("boundary_stage_skipped")
+        return
+    plane = []
+    for a in anc:
+        p = (a["lon"], a["lat"])
+        F, _G = c13.faces_by_distance(refgeo.lonlat_to_frame(p))
+        try:
+            q = proj.forward(from_lonlat(p), F)
+        except Exception:  # noqa: BLE001
+            continue
+        plane.append((F, (q[0], q[1])))
+
+    def mk(i, usize, ang, nverts, rads):
+        face, q = plane[i % len(plane)]
+        k = int(round(math.degrees(math.atan2(q[1], q[0])) / 72.0)) % 5
+        hx = hexagon(k)
+        size = 10.0 ** (-4 + 2.5 * usize) * 2 * D_EDGE
+        g = (sum(p[0] for p in hx) / 6, sum(p[1] for p in hx) / 6)
+        # first vertex = the boundary point itself; the others fan out toward the inside of D_k
+        base = math.atan2(g[1] - q[1], g[0] - q[0])
+        poly = [[q[0], q[1]]]
+        for j in range(1, nverts):
+            a_ = base + (j - nverts / 2.0) * (1.6 / nverts) + 0.3 * (ang - 0.5)
+            r_ = size * (0.5 + 0.5 * rads[j])
+            poly.append([q[0] + r_ * math.cos(a_), q[1] + r_ * math.sin(a_)])
+        # keep counter-clockwise order irrelevant: area is compared in absolute value
+        return {"face": face, "k": k, "poly": poly, "cls": "branch_boundary"}
+    # every discovered anchor is used (a few polygons each); the shape parameters come from Hypothesis
+    import hypothesis
+    from hypothesis import HealthCheck, Phase, given, settings
+    reps = 2 if ctx.tier == "quick" else 12
+    params = []
+
+    @hypothesis.seed(ctx.shard_seed)
+    @settings(max_examples=len(plane) * reps + 10, database=None, deadline=None, phases=[Phase.generate], suppress_health_check=list(HealthCheck))
+    @given(st.tuples(_unit, _unit, st.integers(3, 4), st.lists(_unit, min_size=5, max_size=5)))
+    def collect(t):
+        params.append(t)
+    collect()
+    params = params[10:] or params
+    for n, t in enumerate(params):
+        judge(mk(n % len(plane), *t), ctx.col)
+
+
 def plan(tier):
-    return [Stage("hyp", 16, stage_hyp, cost=8)]
+    return [Stage("hyp", 16, stage_hyp, cost=8), Stage("boundary", 16, stage_boundary, cost=6)]
 
 
 def replay(rec, col):
